@@ -202,6 +202,17 @@ class C01(ResolveSpec):
     projection_doc = "conclusion kind; requirement vector; for every third-party node and criterion whether the search succeeded"
     assumptions = ["criteria indices in the generated stores are defined (validated store); see C15 for the rest"]
 
+    def gen_cases(self, rng, n):
+        cases = []
+        for i in range(n):
+            c = gen.gen_resolve_case(rng, f"g{i}")
+            if i % 3 == 1:
+                # publisher-based first links from several sources (local and imported wildcard audits, trusted entries)
+                gen.boost_grants(rng, c)
+                gen.boost_grants(rng, c)
+            cases.append(c)
+        return cases
+
     def project(self, rep, o, model=None):
         ok = []
         for i, r in enumerate(rep.results):
@@ -674,6 +685,8 @@ class C04(ResolveSpec):
             c = gen.gen_resolve_case(rng, f"g{i}", p_violation=0.5)
             if i % 2:
                 gen.boost_grants(rng, c)
+            if i % 4 == 2:
+                gen.boost_git_violation(rng, c)
             cases.append(c)
         return cases
 
